@@ -476,6 +476,18 @@ def r12_same_normalisation_both_sides(idx, r):
                           "as shadowed by `ISOAA-<suffix>`, both are selected and the merge of the two is refused")
     if n < 1:
         raise AnchorMissing("getISOTXSLibrariesToMerge: comparison with os.path.basename(...)")
+    # the same for the substring filters that drop the merged ISOTXS and the ascii/BCD files: they are about the file NAME
+    comps = [x for x in ast.walk(f.node) if isinstance(x, ast.ListComp) and x.generators and norm(x.generators[0].iter) in f.params()]
+    k = 0
+    for cmp_ in comps:
+        v = norm(cmp_.generators[0].target)
+        for t in [y for cond in cmp_.generators[0].ifs for y in ast.walk(cond) if isinstance(y, ast.Compare) and isinstance(y.ops[0], (ast.In, ast.NotIn)) and isinstance(y.left, ast.Constant)]:
+            k += 1
+            r.require(norm(t.comparators[0]) == f"os.path.basename({v})", f"filter:{t.left.value}:on-the-file-name", f, node=t,
+                      msg=f"`{norm(t)}` looks for {t.left.value!r} in the whole path: a run directory whose name contains it (myISOTXSrun, BCDcase) makes every library in it be skipped, and the merged "
+                          "library comes out empty without any error")
+    if k < 3:
+        raise AnchorMissing("getISOTXSLibrariesToMerge: the ISOTXS / .ascii / BCD filters")
 
 
 def r13_assigned_means_not_none_and_fresh_accumulators(idx, r):
@@ -539,7 +551,7 @@ def run(idx, chk):
                  necessary="a rejected merge leaves the target library (metadata included) unchanged")
     chk.run_rule("R10.11", "merge's emptiness tests leave out bookkeeping only; optional matrices enter arithmetic behind their None test", lambda r: r11_optional_data_attributes(idx, r), floor=2,
                  necessary="a merge never silently drops data; derived sums skip, not crash on, what a library does not carry")
-    chk.run_rule("R10.12", "the plain/suffixed library pairing compares base names on both sides", lambda r: r12_same_normalisation_both_sides(idx, r), floor=1,
+    chk.run_rule("R10.12", "the plain/suffixed library pairing compares base names on both sides", lambda r: r12_same_normalisation_both_sides(idx, r), floor=4,
                  necessary="a directory holding ISOxx and ISOxx-<suffix> merges to the suffixed data, without a refused double merge")
     chk.run_rule("R10.13", "a PMATRX-type record is 'assigned' iff it is not None; macroscopic accumulators start as fresh arrays", lambda r: r13_assigned_means_not_none_and_fresh_accumulators(idx, r), floor=3,
                  necessary="conflicting data are refused whatever their values; macroscopic sums are the density-weighted sums of the micros for every composition")
